@@ -1,1 +1,4 @@
-/-! # C06 — property theorems (not built yet) -/
+import PysphVerif.Model.PArray
+namespace PysphVerif.C06
+theorem placeholder : True := trivial
+end PysphVerif.C06
